@@ -96,11 +96,12 @@ void run_history(Run &R, int maxops) {
       bool node_reset = c.t.coin();
       for (int i = first; i <= ng; i++) for (int k = 0; k < g[i].size; k++) g[i].ram[k] = (uint8_t)iv.next();
       std::vector<std::vector<uint8_t>> rb; for (int i = 0; i <= ng; i++) rb.push_back(std::vector<uint8_t>(g[i].ram, g[i].ram + g[i].size));
-      CONodeGetErr(s.node);
+      // an application need not fetch the node error of an earlier faulted step before the next reset: the reset reloads all the same
+      bool unfetched = s.node->Error != CO_ERR_NONE && R.ops % 2 == 0; if (unfetched) c.cls("reset-with-an-unfetched-node-error"); else CONodeGetErr(s.node);
       arm(); s.rx(Frame::mk(0, 2, {(uint8_t)(node_reset ? 129 : 130), 0})); bool h = done(); s.clear_tx();
       VLOG(c, "NMT reset %s%s", node_reset ? "node" : "communication", h ? "   (NVM fault injected)" : "");
-      if (h) CHECK(c, CONodeGetErr(s.node) != CO_ERR_NONE, "short-read-surfaced", "a short NVM read during an NMT reset was not reported as node error");
-      else { CO_ERR ne = CONodeGetErr(s.node); CHECK(c, ne == CO_ERR_NONE, "no-spurious-node-error", "an NMT reset %s without NVM fault reported node error %d", node_reset ? "node" : "communication", ne); }
+      if (h) { CHECK(c, s.node->Error != CO_ERR_NONE, "short-read-surfaced", "a short NVM read during an NMT reset was not reported as node error"); if (R.ops % 2) CONodeGetErr(s.node); /* else: left unfetched */ }
+      else { CO_ERR ne = CONodeGetErr(s.node); if (!unfetched) CHECK(c, ne == CO_ERR_NONE, "no-spurious-node-error", "an NMT reset %s without NVM fault reported node error %d", node_reset ? "node" : "communication", ne); }
       if (!h) for (int i = first; i <= ng; i++) {
         bool reload = node_reset || g[i].type == CO_RESET_COM;
         if (reload) CHECK(c, ram_equals_nvm(i), "reset-reloads-type", "NMT reset %s did not reload group %d (reset type %d) from NVM", node_reset ? "node" : "communication", i, g[i].type);
